@@ -10,21 +10,24 @@ from rsv import facts, selfcheck, report
 PROPS = ["C%02d" % i for i in range(1, 21)]
 
 
+CONFIGS = ("asbuilt", "debug") if "--debug" in sys.argv else ("asbuilt",)
+
+
 def one(patch):
     tmp, dst = selfcheck.scratch_copy()
     try:
         p = subprocess.run(["patch", "-p1", "--no-backup-if-mismatch", "-s", "-f", "-d", dst, "-i", os.path.abspath(patch)], stdout=subprocess.PIPE, stderr=subprocess.STDOUT, text=True)
         if p.returncode != 0:
             return patch, "PATCH-FAILS " + p.stdout.strip()[:120], []
-        d, _ = facts.build_facts(("asbuilt",))
+        d, _ = facts.build_facts(CONFIGS)
         base = (os.path.join(d, "cdb"), facts.REPO)
         changed = selfcheck.changed_files(patch)
         hits = []
         try:
-            d2, units = facts.build_facts(("asbuilt",), repo=dst, cache_root=os.path.join(tmp, "facts"), cdb_from=base, reuse=(os.path.dirname(base[0]), changed))
+            d2, units = facts.build_facts(CONFIGS, repo=dst, cache_root=os.path.join(tmp, "facts"), cdb_from=base, reuse=(os.path.dirname(base[0]), changed))
         except facts.AnalysisBroken as e:
             return patch, "DOES-NOT-COMPILE " + str(e)[:160], []
-        progs = {"asbuilt": facts.Program(d2, "asbuilt")}
+        progs = {c: facts.Program(d2, c) for c in CONFIGS}
         for prop in PROPS:
             mod = importlib.import_module("rsv.props." + prop)
             ck = report.Checker(prop, "quick", 0)
@@ -38,7 +41,7 @@ def one(patch):
                 continue
             for o in ck.obs:
                 if o["verdict"] == "violated":
-                    hits.append("%s %s:%s" % (prop, o["rule"], o["instance"]))
+                    hits.append("%s %s:%s%s" % (prop, o["rule"], o["instance"], "" if o.get("config", "asbuilt") == "asbuilt" else " [debug]"))
             if getattr(ck, "broken_notes", None):
                 hits.append("%s BROKEN-FLOOR %s" % (prop, "; ".join(ck.broken_notes)[:100]))
         return patch, "ok", hits
@@ -49,7 +52,7 @@ def one(patch):
 if __name__ == "__main__":
     d = sys.argv[1]
     j = int(sys.argv[sys.argv.index("-j") + 1]) if "-j" in sys.argv else 6
-    facts.build_facts(("asbuilt",))
+    facts.build_facts(CONFIGS)
     files = sorted(glob.glob(os.path.join(d, "*.diff")))
     with Pool(j) as pool:
         for patch, status, hits in pool.imap(one, files):
